@@ -10,7 +10,7 @@ def load(path):
     spec = importlib.util.spec_from_file_location(name, path)
     mod = importlib.util.module_from_spec(spec)
     spec.loader.exec_module(mod)
-    return list(api.TASKS)
+    return [t for t in api.TASKS if t.fn.__module__ == name]
 
 
 def _run(arg):
